@@ -74,7 +74,9 @@ def _job(args):
     err = None
     seen_kinds = {}
     stopped_early = False
-    for ep, cfg in eps_cfgs:
+    for item in eps_cfgs:
+        ep, cfg = item[0], item[1]
+        k = item[2] if len(item) > 2 else 1
         if sum(1 for f in findings if f['scenario'] is not None) >= 8 or len(findings) >= 200:
             # plenty of counterexamples to replay already: do not burn the budget on more of the same
             stopped_early = True
@@ -83,16 +85,24 @@ def _job(args):
         ex.var_bounds = cm.len_bounds(cm.input_names(cfg))
         local = []
 
-        def entry(ex, ep=ep, cfg=cfg):
+        def entry(ex, ep=ep, cfg=cfg, k=k):
+            if k > 1:
+                return cm.do_calls(ex, prog, ep, cfg, k)
             return cm.do_call(ex, prog, ep, cfg)
 
-        def on_path(ex, result, status, ep=ep, cfg=cfg):
+        def on_path(ex, result, status, ep=ep, cfg=cfg, k=k):
             counters['paths'] += 1
             if status == 'cut':
                 return
             emits = [e for e in ex.events if e[0] == 'emit']
             counters['emitting_paths' if emits else 'rejecting_paths'] += 1
-            cm.CallChecker(ex, prog, ep, cfg, local, counters).run(result, status)
+            if k > 1 and status == 'ok':
+                for ci, (st_i, r_i, e0, e1) in enumerate(result):
+                    cm.CallChecker(ex, prog, ep, cfg, local, counters, events=ex.events[e0:e1], call_index=ci, repeat=k).run(r_i, st_i)
+            else:
+                cm.CallChecker(ex, prog, ep, cfg, local, counters).run(result, status)
+            if ex.out.get('stateful_client'):
+                counters['stateful'] = counters.get('stateful', 0) + 1
             if len(samples) < 2 and emits:
                 samples.append({'entry': list(ep[:3]), 'config': cfg.describe(), 'emitted': repr(emits[0][1]), 'sink': emits[0][2]})
 
@@ -238,6 +248,8 @@ def scenario_from_finding(f):
             kv = m.eval(e[3].state[1], model_completion=True).as_long()
             script.append('err:' + inv_kinds.get(kv, 'Other'))
     sc['sink_script'] = script
+    sc['repeat'] = f.get('repeat', 1)
+    sc['call_index'] = f.get('call_index', 0)
     sc['claimed'] = {'prop': f['prop'], 'clause': f['clause'], 'detail': str(f['detail'])[:400]}
     return sc
 
@@ -265,6 +277,13 @@ def run_family(out, props, eps_filter=None):
     for idx, ep in enumerate(eps):
         for cfg in configs_for(ep, out.tier, out.seed, idx):
             work.append((ep, cfg))
+    # the same call repeated on one client (outcomes of consecutive calls are independent symbolic choices)
+    seq_eps = [ep for i, ep in enumerate(eps) if thorough or (i + out.seed) % 5 == 0 or ep[1] == 'Duration']
+    for ep in seq_eps:
+        packed = ep[1].startswith('Vec<')
+        for form in ('quiet', 'tagged', 'plain'):
+            for k in ((2, 3) if thorough else (2,)):
+                work.append((ep, cm.Config(prefix_dots=0, dtags=('kv',), tags=('bare',) if form != 'plain' else (), form=form, nvals=1 if packed else None), k))
     nproc = max(1, (os.cpu_count() or 4) - 1)
     chunk = max(4, len(work) // (nproc * 6))
     chunks = [work[i:i + chunk] for i in range(0, len(work), chunk)]
@@ -281,6 +300,9 @@ def run_family(out, props, eps_filter=None):
     for r in res:
         if r['error']:
             raise Unsupported(r['error'])
+        stateful = r['counters'].get('stateful', 0)
+        if stateful:
+            out.notes.append('a metric call writes shared state of the client (interior mutability): single-call obligations alone do not cover call sequences')
         tot['total'] += r['queries']
         tot['sat'] += r['sat']
         tot['unsat'] += r['unsat']
